@@ -39,7 +39,9 @@ bool divides_upoly(const URatPoly &a, const URatPoly &b,
     rational_class q, r;
     unsigned int a_deg, b_deg;
 
-    while (b_poly.size() >= a_poly.size()) {
+    // long division while the remainder still reaches the divisor's degree
+    // (the number of terms says nothing about that for sparse polynomials)
+    while (not b_poly.empty() and b_poly.degree() >= a_poly.degree()) {
         a_deg = a_poly.degree();
         b_deg = b_poly.degree();
         q = b_poly.get_lc() / a_poly.get_lc();
